@@ -67,3 +67,4 @@ def run(chk):
                     ('iter_exhaustion_checks', 1000), ('struct_walks', 1000)):
         chk.require(name, m)
     chk.min_cases = 1000
+    chk.coverage(build('cov'), 200)       # thorough tier: gcov line coverage of the anchored sources under this workload
